@@ -106,6 +106,8 @@ def ext_letters(role, first_headers):
         'Uf0700': fr(0xf0700, b'\x00\x01'), 'Ug8': fr(GREASE8, b'grease'), 'U63': fr(0x21, pat[:63]), 'U64': fr(0x21, pat[:64]),
         'U16383': fr(0x2f, pat[:16383]), 'U16384': fr(0x0e, pat[:16384]), 'Ulen4': enc(0x21, 1) + enc(3, 4) + b'abc',
         'Ulen8': enc(0x0e, 2) + enc(2, 8) + b'ab', 'D64': fr(0, pat[:64]), 'D16384': fr(0, pat[:16384]), 'Dlen4': enc(0, 1) + enc(3, 4) + b'xyz',
+        'SEv': fr(4, b'\x01\x05\x06\x40\x40'), 'SEbad': fr(4, b'\x02\x00'), 'SEcut': fr(4, b'\x01'), 'GAbad': fr(7, b'\x04\x00'),
+        'CPshort': fr(3, b''), 'PPshort': fr(5, b''),
         'H206': fr(6, b''), 'H208': fr(8, b'\x01\x02\x03\x04'), 'H209': fr(9, b'\x00'),
         'Hbig': fr(1, big_headers(role, first_headers, 200)), 'Hbig16k': fr(1, big_headers(role, first_headers, 16384)),
     }
@@ -216,7 +218,7 @@ class P(Property):
                         out.append(batch(role, fr, e))
                         if k >= 2 and (tier != 'quick' or k <= 3 or e != 'R268'):
                             out.append(per_frame(role, fr, e))
-                    e = rng.choice(['F', 'F', 'R268', ''])
+                    e = rng.choice(['F', 'F', 'R268', 'R0', 'R256', 'R%d' % 2 ** 40, ''])
                     if k >= 1:
                         out.append(random_split(rng, role, fr, e, late_end=rng.random() < 0.4))
                     # the application split()s the stream after the head / after the first piece of body
